@@ -2,7 +2,7 @@ SPECIFICATION Spec
 CONSTANTS
   Defect = "none"
   N = 4
-  Datasets <- DatasetsBucket4
+  Datasets <- DatasetsBucket4s
   Spans <- SpansAll
   Origins <- OriginsAll
 CONSTRAINT Emit
